@@ -125,8 +125,9 @@ BREAKING = [
                                                     "        imm = parse_immediate(imm, line)\n        return UTypeInstruction(line, name, rd, imm)")]),
 ]
 
-UNDECIDED = [
-    # the factory computes the binding with a statement the program model does not fold: no binding, no verdict
-    ('u6-binding-factory-loop', ['C01'], [(A, ADD_SUB, "def alu_op(funct3, funct7):\n    fields = {}\n    for k, v in (('funct3', funct3), ('funct7', funct7)):\n        fields[k] = v\n"
+UNDECIDED = []
+PRESERVING += [
+    # the factory computes the same binding with a loop: folded by the encoder interpreter's module evaluation (was: no verdict)
+    ('p6-binding-factory-loop', ['C01'], [(A, ADD_SUB, "def alu_op(funct3, funct7):\n    fields = {}\n    for k, v in (('funct3', funct3), ('funct7', funct7)):\n        fields[k] = v\n"
                                                         "    return partial(r_type, opcode=0b0110011, **fields)\n\n\nADD        = alu_op(0b000, 0b0000000)\nSUB        = alu_op(0b000, 0b0100000)\n")]),
 ]
